@@ -49,7 +49,7 @@ func c20Source(ver, scans int, elseStop bool) string {
 
 func c20SourceX(ver, scans int, elseStop, slow bool, lastKind string) string {
 	var sb strings.Builder
-	sb.WriteString("counter seen by ver, id\n" + lastKind + " last\ngauge prev\ncounter inversions\n")
+	sb.WriteString("counter seen by ver, id\n" + lastKind + " last\ngauge prev\ncounter inversions\ncounter finished by id\n")
 	for i := 0; i < scans; i++ {
 		if slow {
 			fmt.Fprintf(&sb, "/[pq]+[qr]%d+zz$/ {\n  inversions += 1000\n}\n", i)
@@ -57,7 +57,7 @@ func c20SourceX(ver, scans int, elseStop, slow bool, lastKind string) string {
 			fmt.Fprintf(&sb, "/qq%dzz$/ {\n  inversions += 1000\n}\n", i)
 		}
 	}
-	fmt.Fprintf(&sb, "/^(?P<id>\\d+)( [a-z ]*)?$/ {\n  seen[\"v%d\"][$id]++\n  $id < prev {\n    inversions++\n  }\n  prev = $id\n  last = $id\n}", ver)
+	fmt.Fprintf(&sb, "/^(?P<id>\\d+)( [a-z ]*)?$/ {\n  seen[\"v%d\"][$id]++\n  $id < prev {\n    inversions++\n  }\n  prev = $id\n  last = $id\n  /(?P<tail>.?)$/ {\n    finished[$id]++\n  }\n}", ver)
 	if elseStop {
 		sb.WriteString(" else {\n  stop\n}")
 	}
@@ -167,6 +167,7 @@ func runC20(c c20Case) (*vstat.Failure, c20Info) {
 		}
 		// every VM has returned: read the final state from the store
 		cells := map[int][]string{} // id -> list of "ver=count"
+		finished := map[int]int64{} // id -> times the last statement of the block ran
 		var last, inv int64 = -1, -1
 		nSeen := 0
 		_ = e.store.Range(func(m *metrics.Metric) error {
@@ -181,6 +182,11 @@ func runC20(c c20Case) (*vstat.Failure, c20Info) {
 				for _, lv := range m.LabelValues {
 					id, _ := strconv.Atoi(lv.Labels[1])
 					cells[id] = append(cells[id], fmt.Sprintf("%s=%d", lv.Labels[0], datum.GetInt(lv.Value)))
+				}
+			case "finished":
+				for _, lv := range m.LabelValues {
+					id, _ := strconv.Atoi(lv.Labels[0])
+					finished[id] += datum.GetInt(lv.Value)
 				}
 			case "last":
 				for _, lv := range m.LabelValues {
@@ -205,6 +211,11 @@ func runC20(c c20Case) (*vstat.Failure, c20Info) {
 				return vstat.Failf("line-processed-by-both-versions", "line %d was counted by more than one version: %v", id, cs)
 			case !strings.HasSuffix(cs[0], "=1"):
 				return vstat.Failf("line-processed-twice", "line %d: %s", id, cs[0])
+			}
+		}
+		for id := 1; id <= c.N; id++ {
+			if finished[id] != 1 {
+				return vstat.Failf("line-processed-in-part", "line %d was begun by %v, but the last statement of its block ran %d times: the line was abandoned half way (%d reloads, %d of them while the old version was busy)", id, cells[id], finished[id], info.reloads, info.overlapped)
 			}
 		}
 		if len(cells) != c.N {
